@@ -44,7 +44,10 @@ try:
             name = name[:-3] + "_test.go"
         shutil.copy(demo, os.path.join(wt, d, name))
         tests = re.findall(r"^func (Test\w+)\(", txt, re.M)
-        run = "go test -vet=off -count=1 -run '^(%s)$' ./%s" % ("|".join(tests), d)
+        race = "-race " if re.search(r"go test[^\n]*-race", txt) else ""
+        if race:
+            ENV["CGO_ENABLED"] = "1"
+        run = "go test %s-vet=off -count=1 -run '^(%s)$' ./%s" % (race, "|".join(tests), d)
     rec["demo_cmd"] = run
     rc0, out0 = sh(run, wt, 900)
     rec["demo_clean_rc"] = rc0
